@@ -107,7 +107,8 @@ def part_safety_net(ctx, eng):
     rp = make_replay(ctx)
     ccc = eng.find('changed_comment_content', free=True)
     eng.lenient = True
-    eng.inline_only = [re.compile(r'changed_comment_content'), re.compile(r'src/comment\.rs[^>]*>::(eq|ne)$'), re.compile(r'CodeCharKind as PartialEq')]
+    # helpers of the kernel (closures, nested fns) live in the same file: whatever of src/comment.rs it calls and no stub covers is inlined
+    eng.inline_only = [re.compile(r'changed_comment_content'), re.compile(r'^src/comment\.rs$'), re.compile(r'src/comment\.rs[^>]*>::(eq|ne)$'), re.compile(r'CodeCharKind as PartialEq')]
     eng.ignored.append(re.compile(r'tracing|LevelFilter|DefaultCallsite|Interest|FieldSet|ValueSet|Event::|Metadata|fmt::|Arguments::'))
     eng.stub(r'^__is_enabled$', lambda e, s, a, c: z3.BoolVal(False), 'tracing debug! disabled')
     eng.stub(r'tracing::Level as PartialOrd<LevelFilter>>::le$', lambda e, s, a, c: z3.BoolVal(False), 'tracing level check: disabled')
